@@ -18,6 +18,7 @@ import (
 	"fmt"
 	"io"
 	"log/slog"
+	"net"
 	"net/netip"
 	"os"
 	"os/exec"
@@ -35,6 +36,7 @@ import (
 	"github.com/osrg/gobgp/v4/api"
 	"github.com/osrg/gobgp/v4/internal/pkg/table"
 	"github.com/osrg/gobgp/v4/pkg/apiutil"
+	"github.com/osrg/gobgp/v4/pkg/config/oc"
 	"github.com/osrg/gobgp/v4/pkg/packet/bgp"
 )
 
@@ -522,6 +524,7 @@ func TestVerifC20Run(t *testing.T) {
 	}
 	c20TmRecursive(r)
 	total := 0
+	procs = append([]int{0}, procs...) // 0 = the deterministic hand-off scenarios (own child process)
 	for _, p := range procs {
 		if r.wedged.Load() {
 			break
@@ -636,7 +639,11 @@ func TestVerifC20RunChild(t *testing.T) {
 	r := &c20Run{o: o, perKind: map[string]int{}}
 	procs, _ := strconv.Atoi(os.Getenv("C20_PROCS"))
 	dur, _ := time.ParseDuration(os.Getenv("C20_DUR"))
-	r.scenario(procs, dur, o.seed)
+	if procs == 0 {
+		c20HandoffScenarios(r)
+	} else {
+		r.scenario(procs, dur, o.seed)
+	}
 	o.stat("calls_total", int(r.calls.Load()))
 	o.stat("hot_prefix_destination_reads", int(r.hotHits.Load()))
 	o.stat("max_destinations_seen_in_global_rib", int(r.maxDests.Load()))
@@ -700,6 +707,147 @@ func c20TmRecursive(r *c20Run) {
 				return
 			} else {
 				last = c
+			}
+		}
+	}
+}
+
+// ---------------------------------------------------------------------------------------------------
+// Deterministic hand-off scenarios (behavioural counterpart of the static rule in
+// zz_verif_c20_handoff_test.go): a per-state FSM handler is run on one end of a net.Pipe and made to
+// LEAVE its state through a returning branch (administrative shutdown, hold-timer expiry, context
+// cancellation) exactly while the peer's message has been completely read by the handler's reader
+// goroutine but not yet taken by the handler: the handler is held inside its NOTIFICATION write (the pipe
+// has no buffer, the peer has not read yet) when the peer writes.  The handler must still return — its
+// deferred wg.Wait() may not depend on anybody receiving from the reader goroutine — and the reader
+// goroutine must be gone afterwards.
+
+type c20HandoffCase struct {
+	state  bgp.FSMState
+	branch string // admin-down | hold-timer | ctx-cancel
+	peer   string // what the peer writes at the critical moment
+}
+
+func c20PeerMsg(kind string) []byte {
+	var m *bgp.BGPMessage
+	switch kind {
+	case "open":
+		m, _ = bgp.NewBGPOpenMessage(65001, 90, netip.MustParseAddr("192.0.2.1"),
+			[]bgp.OptionParameterInterface{bgp.NewOptionParameterCapability(
+				[]bgp.ParameterCapabilityInterface{bgp.NewCapMultiProtocol(bgp.RF_IPv4_UC)})})
+	case "keepalive":
+		m = bgp.NewBGPKeepAliveMessage()
+	case "notification":
+		m = bgp.NewBGPNotificationMessage(bgp.BGP_ERROR_CEASE, bgp.BGP_ERROR_SUB_PEER_DECONFIGURED, nil)
+	case "garbage":
+		return []byte{0, 1, 2, 3, 4, 5, 6, 7, 8, 9, 10, 11, 12, 13, 14, 15, 0, 19, 9} // bad marker: a MessageError
+	}
+	b, _ := m.Serialize()
+	return b
+}
+
+func c20ReaderGoroutines() int {
+	n := 0
+	for _, g := range strings.Split(c20Dump(), "\n\n") {
+		if strings.Contains(g, "(*fsmHandler).recvMessage") {
+			n++
+		}
+	}
+	return n
+}
+
+func (r *c20Run) handoffCase(c c20HandoffCase) {
+	o := r.o
+	name := fmt.Sprintf("%s/%s/peer-%s", c.state, c.branch, c.peer)
+	local, remote := net.Pipe()
+	defer remote.Close()
+	defer local.Close()
+	logger := slog.New(slog.NewTextHandler(io.Discard, nil))
+	f := newFSM(&oc.Global{}, &oc.Neighbor{}, c.state, logger)
+	defer cleanInfiniteChannel(f.outgoingCh)
+	f.conn = local
+	h := &fsmHandler{fsm: f, outgoing: f.outgoingCh, callback: func(*fsmMsg) {}}
+	f.h = h
+	ctx, cancel := context.WithCancel(context.Background())
+	defer cancel()
+	switch c.branch {
+	case "admin-down":
+		f.adminStateCh <- adminStateOperation{State: adminStateDown}
+	case "hold-timer":
+		f.opensentHoldTime = 1
+		f.lock.Lock()
+		conf := f.pConf.ReadCopy()
+		conf.Timers.State.NegotiatedHoldTime = 1
+		conf.Timers.State.KeepaliveInterval = 100
+		f.pConf.Update(&conf)
+		f.lock.Unlock()
+	}
+	before := c20ReaderGoroutines()
+	done := make(chan struct{})
+	go func() {
+		defer close(done)
+		defer func() { _ = recover() }()
+		switch c.state {
+		case bgp.BGP_FSM_OPENSENT:
+			h.opensent(ctx)
+		case bgp.BGP_FSM_OPENCONFIRM:
+			h.openconfirm(ctx)
+		}
+	}()
+	switch c.branch {
+	case "hold-timer":
+		time.Sleep(1150 * time.Millisecond) // the timer fired: the handler is writing its NOTIFICATION
+	case "ctx-cancel":
+		time.Sleep(50 * time.Millisecond)
+	default:
+		time.Sleep(50 * time.Millisecond) // the queued admin-down was taken: the handler is writing the Cease
+	}
+	// the peer writes BEFORE it reads: the reader goroutine gets the whole message while the handler is busy
+	_ = remote.SetWriteDeadline(time.Now().Add(3 * time.Second))
+	_, werr := remote.Write(c20PeerMsg(c.peer))
+	if c.branch == "ctx-cancel" {
+		cancel()
+	}
+	time.Sleep(150 * time.Millisecond)
+	// now the peer reads what it was sent (or sees the close)
+	buf := make([]byte, bgp.BGP_MAX_MESSAGE_LENGTH)
+	_ = remote.SetReadDeadline(time.Now().Add(2 * time.Second))
+	_, _ = remote.Read(buf)
+	o.stat("handoff_case_"+name, 1)
+	if werr != nil {
+		o.stat("handoff_peer_write_failed_"+name, 1)
+	}
+	select {
+	case <-done:
+	case <-time.After(5 * time.Second):
+		r.fail("fsm-state-handler-hang:"+name, map[string]any{
+			"scenario":   fmt.Sprintf("%s handler on a net.Pipe; leave the state through %s; the peer writes a complete %s while the handler is inside that branch, then reads", c.state, c.branch, c.peer),
+			"observed":   "the handler did not return within 5 s (FSM goroutine stuck; DeletePeer / StopBgp would never return)",
+			"goroutines": c20Trunc(c20Dump(), 6000)})
+		return
+	}
+	local.Close()
+	remote.Close()
+	for i := 0; i < 20 && c20ReaderGoroutines() > before; i++ {
+		time.Sleep(50 * time.Millisecond)
+	}
+	if n := c20ReaderGoroutines(); n > before {
+		r.fail("goroutine-leak", map[string]any{"scenario": name, "leaked_reader_goroutines": n - before, "goroutines": c20Trunc(c20Dump(), 4000)})
+	}
+}
+
+func c20HandoffScenarios(r *c20Run) {
+	for _, st := range []bgp.FSMState{bgp.BGP_FSM_OPENSENT, bgp.BGP_FSM_OPENCONFIRM} {
+		peers := []string{"open", "notification", "garbage"}
+		if st == bgp.BGP_FSM_OPENCONFIRM {
+			peers = []string{"keepalive", "notification", "open", "garbage"}
+		}
+		for _, br := range []string{"admin-down", "hold-timer", "ctx-cancel"} {
+			for _, pm := range peers {
+				if !r.o.thorough && br == "hold-timer" && pm != peers[0] {
+					continue // one second each: the quick tier keeps one per state
+				}
+				r.handoffCase(c20HandoffCase{state: st, branch: br, peer: pm})
 			}
 		}
 	}
